@@ -160,3 +160,48 @@ def run(F, rep):
         a = nth_arg(c, 1)
         ok = slice_has(ri, a, lambda x: x.get('k') == 'Call' and x.get('fn') == 'normalisePath') and slice_has(ri, a, lambda x: x.get('k') == 'Ref' and x.get('dk') == 'parm' and x.get('n') == ri.params[1]['n'])
         rep.check(ok, 'C07.B1', 'resolveImports|%s-base' % c['fn'], ri.where(c), 'initial base `%s` is not normalisePath(basePath)' % render(a), 'normalisePath(basePath)')
+
+    # ------------------------------------------------------------------ H: the visit history is a stack
+    rep.rule('C07.H1', 'fetchComponent and fetchUnits treat the shared visit history alike: each pushes its epoch once and pops it on every path that reports success '
+                       '(an epoch left behind makes a later sibling import from the same file look like a cycle); the two siblings perform the same operations on the history')
+    from issues import must_pass
+    sig = {}
+    for nm in ('fetchComponent', 'fetchUnits'):
+        f = F.fn1('Importer::ImporterImpl::' + nm)
+        hp = [p for p in f.params if 'History' in p['t'] or 'HistoryEpoch' in p['t']]
+        if len(hp) != 1:
+            raise AnalysisBroken('%s: history parameter vanished' % nm)
+        d = hp[0]['d']
+        ops = [c for c in f.walk() if c.get('k') == 'Call' and c.get('mc') and c['c'][0].get('k') == 'Ref' and c['c'][0].get('d') == d]
+        sig[nm] = sorted(c.get('fn') for c in ops)
+        pushes = [c for c in ops if c.get('fn') in ('push_back', 'emplace_back')]
+        pops = [c for c in ops if c.get('fn') == 'pop_back']
+        fails = [r for r in f.walk() if r.get('k') == 'Return' and r.get('c') and render(r['c'][0]) == 'false']
+        cfg = f.cfg()
+        for c in pushes:
+            rep.check(bool(pops) and must_pass(cfg, c, [x['i'] for x in pops] + [x['i'] for x in fails]), 'C07.H1', '%s|push-pop' % nm, f.where(c),
+                      '%s pushes its epoch on the history but some succeeding path never pops it (%d pop_back)' % (nm, len(pops)), 'popped on every succeeding path')
+        if not pushes:
+            raise AnalysisBroken('%s no longer pushes on the history' % nm)
+    rep.check(sig['fetchComponent'] == sig['fetchUnits'], 'C07.H1', 'siblings', None, 'fetchComponent does %s on the history, fetchUnits does %s' % (sig['fetchComponent'], sig['fetchUnits']), 'same operations: %s' % sig['fetchUnits'])
+
+    # ------------------------------------------------------------------ V: every import below an import is visited
+    rep.rule('C07.V1', 'the visit-everything walks over the component tree used by the importer (clearing imports, collecting imported components/units, renaming) descend into the children of every component, imported or not: '
+                       'inside a loop over componentCount() the recursive call depends on nothing but the loop, and the loop itself is not inside a branch that excludes imported components')
+    from engines import enclosing_conditions as _enc
+    n_v = 0
+    for g in F.funcs.values():
+        if not g.file.endswith(('/importer.cpp', '/utilities.cpp')) or g.j.get('ret') != 'void':
+            continue   # verdict functions (bool) stop at the first failure by design; this rule is about visit-everything walks
+        for loop in g.walk():
+            if loop.get('k') != 'For' or 'componentCount()' not in render(role(loop, 'cond')):
+                continue
+            rec = [c for c in walk(role(loop, 'body')) if c.get('k') == 'Call' and not c.get('opc') and any(ck == g.key or g.key in F.reach([ck]) for ck in F.callee_keys(c))]
+            if not rec:
+                continue
+            n_v += 1
+            outer = [(render(cnd), br) for cnd, br, st in _enc(g, loop) if 'isImport()' in render(cnd)]
+            rep.check(not outer, 'C07.V1', '%s|loop placement' % g.short.split('::')[-1], g.where(loop),
+                      '%s walks the children only when %s: imports nested under an imported component are never reached' % (g.short, ' and '.join('`%s` takes its %s branch' % o for o in outer)), 'children walked for every component')
+    if n_v < 2:
+        raise AnalysisBroken('C07.V1: recursive child loops of void walkers vanished (%d found)' % n_v)
